@@ -113,7 +113,9 @@ impl Serialize for String {
     fn deserialize(bytes: &[u8]) -> Result<Self, DbError> {
         let len = usize::deserialize(bytes)?;
         let begin = len.serialized_size() as usize;
-        let end = begin + len;
+        let end = begin.checked_add(len).ok_or_else(|| {
+            DbError::serialization(DbErrorType::OutOfBounds, "String deserialization error")
+        })?;
 
         Ok(String::from_utf8(
             bytes
